@@ -135,6 +135,43 @@ func VerifC17_Static6()     { zzStatic(6, false) }
 func VerifC17_Static8()     { zzStatic(8, false) }
 func VerifC17_LinkedRoot5() { zzStatic(5, true) }
 
+// The tree changes while the server runs (a deploy, an attacker with write
+// access to a subdirectory): every request is confined on the tree as it is
+// when the request is served. One server instance, a request, a change, the
+// same request again.
+func VerifC17_TreeChangesBetweenRequests() {
+	zzTree()
+	srv, err := NewStaticFileServer(zzverif.FSPath(zzRoot))
+	if err != nil {
+		zzverif.Fail("c17-server-construction-failed")
+	}
+	target := []string{"/a", "/d/b", "/d/", "/li"}[zzverif.Choice("target", 4)]
+	get := func() *zzRec {
+		rec := &zzRec{}
+		srv.ServeHTTP(rec, &http.Request{Method: "GET", URL: &url.URL{Path: target}, Header: http.Header{}})
+		return rec
+	}
+	first := get()
+	zzCheckResponse("GET", first)
+	switch zzverif.Choice("change", 4) {
+	case 0: // the file becomes a link to a file outside
+		zzverif.FSRemove("/s/w/a")
+		zzverif.FSSymlink("/s/w/a", zzverif.FSPath("/o/p"))
+	case 1: // a file below a directory becomes a link outside
+		zzverif.FSRemove("/s/w/d/b")
+		zzverif.FSSymlink("/s/w/d/b", zzverif.FSPath("/o/p"))
+	case 2: // the directory's index becomes a link outside
+		zzverif.FSRemove("/s/w/d/index.html")
+		zzverif.FSSymlink("/s/w/d/index.html", zzverif.FSPath("/o/index.html"))
+	default: // an in-root link is re-pointed outside
+		zzverif.FSRemove("/s/w/li")
+		zzverif.FSSymlink("/s/w/li", zzverif.FSPath("/o/p"))
+	}
+	second := get()
+	zzCheckResponse("GET", second)
+	zzverif.Reach("c17-tree-change")
+}
+
 func zzSendFile(n int) {
 	zzTree()
 	zzverif.FSChdir(zzRoot)
